@@ -884,8 +884,48 @@ class Inliner:
         self.split_on_conditional_tuple()
         self.lower_table_lookups()
         self.split_tuple_assigns()
+        self.fold_constant_fstrings()
         ast.fix_missing_locations(self.tree)
         return self.tree
+
+    def fold_constant_fstrings(self):
+        """``f'--match-{'out'}{'-cc'}'`` (left over when a table-driven
+        loop or a helper with constant arguments was written out) is the
+        string constant it denotes; ``'a' + 'b'`` likewise."""
+        class F(ast.NodeTransformer):
+
+            def visit_JoinedStr(self_, n):
+                n = self_.generic_visit(n)
+                out = ''
+                for p_ in n.values:
+                    if isinstance(p_, ast.Constant) and isinstance(
+                            p_.value, str):
+                        out += p_.value
+                    elif isinstance(p_, ast.FormattedValue) and isinstance(
+                            p_.value, ast.Constant) and isinstance(
+                                p_.value.value, str) and \
+                            p_.conversion == -1 and p_.format_spec is None:
+                        out += p_.value.value
+                    else:
+                        return n
+                return ast.copy_location(ast.Constant(value=out), n)
+
+            def visit_BinOp(self_, n):
+                n = self_.generic_visit(n)
+                if isinstance(n.op, ast.Add) and isinstance(
+                        n.left, ast.Constant) and isinstance(
+                            n.right, ast.Constant) and isinstance(
+                                n.left.value, str) and isinstance(
+                                    n.right.value, str):
+                    return ast.copy_location(ast.Constant(
+                        value=n.left.value + n.right.value), n)
+                return n
+
+        touched = {n.split(':')[0].split('.')[-1] for n in self.notes
+                   if ':' in n}
+        for f in ast.walk(self.tree):
+            if isinstance(f, ast.FunctionDef) and f.name in touched:
+                F().visit(f)
 
     def propagate_callable_aliases(self):
         """``take = visit.pop`` (one binding, a plain name / attribute
@@ -2527,6 +2567,105 @@ def lower_modern_syntax(tree):
 
     P().visit(tree)
 
+    # itertools.filterfalse(p, X) -> filter(lambda x: not p(x), X);
+    # operator.gt(a, b) -> a > b (and the other binary operator functions)
+    OPS_CMP = {'lt': ast.Lt, 'le': ast.LtE, 'gt': ast.Gt, 'ge': ast.GtE,
+               'eq': ast.Eq, 'ne': ast.NotEq, 'is_': ast.Is,
+               'is_not': ast.IsNot}
+    OPS_BIN = {'add': ast.Add, 'sub': ast.Sub, 'mul': ast.Mult,
+               'floordiv': ast.FloorDiv, 'truediv': ast.Div,
+               'mod': ast.Mod}
+
+    class O(ast.NodeTransformer):
+
+        def visit_Call(self_, n):
+            n = self_.generic_visit(n)
+            fn_ = ast.unparse(n.func)
+            if fn_ in ('itertools.filterfalse', 'filterfalse') and len(
+                    n.args) == 2 and not n.keywords and isinstance(
+                        n.args[0], (ast.Name, ast.Attribute)):
+                lam = ast.Lambda(
+                    args=ast.arguments(posonlyargs=[], args=[ast.arg(
+                        arg='x__')], kwonlyargs=[], kw_defaults=[],
+                        defaults=[], vararg=None, kwarg=None),
+                    body=ast.UnaryOp(op=ast.Not(), operand=ast.Call(
+                        func=n.args[0], args=[ast.Name(id='x__',
+                                                       ctx=ast.Load())],
+                        keywords=[])))
+                notes.append(f'filterfalse at line {n.lineno} written as '
+                             'filter(lambda)')
+                return ast.copy_location(ast.Call(
+                    func=ast.Name(id='filter', ctx=ast.Load()),
+                    args=[lam, n.args[1]], keywords=[]), n)
+            if fn_.startswith('operator.') and len(n.args) == 2 and \
+                    not n.keywords:
+                k = fn_.split('.', 1)[1]
+                if k in OPS_CMP:
+                    return ast.copy_location(ast.Compare(
+                        left=n.args[0], ops=[OPS_CMP[k]()],
+                        comparators=[n.args[1]]), n)
+                if k in OPS_BIN:
+                    return ast.copy_location(ast.BinOp(
+                        left=n.args[0], op=OPS_BIN[k](), right=n.args[1]), n)
+                if k == 'contains':
+                    return ast.copy_location(ast.Compare(
+                        left=n.args[1], ops=[ast.In()],
+                        comparators=[n.args[0]]), n)
+            return n
+
+    # a callable chosen by a condition and only called: two arms
+    def split_callable(blk):
+        i = 0
+        while i < len(blk):
+            st = blk[i]
+            for fld in ('body', 'orelse', 'finalbody'):
+                b_ = getattr(st, fld, None)
+                if isinstance(b_, list) and b_ and isinstance(
+                        b_[0], ast.stmt):
+                    split_callable(b_)
+            for hd in getattr(st, 'handlers', []) or []:
+                split_callable(hd.body)
+            if isinstance(st, ast.Assign) and len(
+                    st.targets) == 1 and isinstance(
+                        st.targets[0], ast.Name) and isinstance(
+                            st.value, ast.IfExp) and all(
+                                isinstance(x, (ast.Name, ast.Attribute))
+                                for x in (st.value.body, st.value.orelse)):
+                v = st.targets[0].id
+                rest = blk[i + 1:]
+                uses = [x for r in rest for x in ast.walk(r)
+                        if isinstance(x, ast.Name) and x.id == v]
+                par = {}
+                for r in rest:
+                    for p_ in ast.walk(r):
+                        for c_ in ast.iter_child_nodes(p_):
+                            par[id(c_)] = p_
+                callee_only = uses and all(
+                    isinstance(u.ctx, ast.Load) and isinstance(
+                        par.get(id(u)), ast.Call)
+                    and par[id(u)].func is u for u in uses)
+                pure_test = not any(isinstance(x, (ast.Call, ast.NamedExpr,
+                                                   ast.Yield, ast.Await))
+                                    for x in ast.walk(st.value.test))
+                if callee_only and pure_test and 0 < len(rest) <= 6:
+                    arms = []
+                    for fn_ in (st.value.body, st.value.orelse):
+                        arm = [_Subst({v: fn_}).visit(clone(r))
+                               for r in rest]
+                        arms.append([O().visit(a_) for a_ in arm])
+                    new = ast.If(test=st.value.test, body=arms[0],
+                                 orelse=arms[1])
+                    ast.copy_location(new, st)
+                    blk[i:] = [new]
+                    notes.append(f'callable chosen by a condition at line '
+                                 f'{st.lineno}: two arms')
+                    return
+            i += 1
+
+    for f in [x for x in ast.walk(tree) if isinstance(x, ast.FunctionDef)]:
+        split_callable(f.body)
+    O().visit(tree)
+
     # functools.partial
     def is_partial(e):
         return isinstance(e, ast.Call) and ast.unparse(e.func) in (
@@ -2641,6 +2780,57 @@ def lower_modern_syntax(tree):
 
 
 PINNED_RECORDS = {'RunInfo', 'Simplification', 'Task', 'Result'}
+ALL_RECORDS = {}  # field tuple -> type name (filled by new_records)
+
+
+def unpack_records(tree):
+    """``substs, fresh_vars = simp`` - the targets are exactly the field
+    names of a record type of the package, in order, the value is a plain
+    name, nothing rebinds targets or value in the function: the targets are
+    written as the field reads ``simp.substs`` / ``simp.fresh_vars``."""
+    notes = []
+    if not ALL_RECORDS:
+        return notes
+    for f in [x for x in ast.walk(tree) if isinstance(x, ast.FunctionDef)]:
+        nb = {a.arg: 1 for a in f.args.args + f.args.kwonlyargs}
+        for x in ast.walk(f):
+            if isinstance(x, ast.Name) and isinstance(x.ctx, (ast.Store,
+                                                              ast.Del)):
+                nb[x.id] = nb.get(x.id, 0) + 1
+        for x in list(ast.walk(f)):
+            for fld in ('body', 'orelse', 'finalbody'):
+                blk = getattr(x, fld, None)
+                if not (isinstance(blk, list) and blk and isinstance(
+                        blk[0], ast.stmt)):
+                    continue
+                for st in list(blk):
+                    if not (isinstance(st, ast.Assign) and len(
+                            st.targets) == 1 and isinstance(
+                                st.targets[0], ast.Tuple) and isinstance(
+                                    st.value, ast.Name) and all(
+                                        isinstance(t, ast.Name)
+                                        for t in st.targets[0].elts)):
+                        continue
+                    names = tuple(t.id for t in st.targets[0].elts)
+                    if names not in ALL_RECORDS:
+                        continue
+                    v = st.value.id
+                    if nb.get(v, 0) != 1 or any(nb.get(n_, 0) != 1
+                                                for n_ in names):
+                        continue
+                    env = {n_: ast.Attribute(
+                        value=ast.Name(id=v, ctx=ast.Load()), attr=n_,
+                        ctx=ast.Load()) for n_ in names}
+                    blk.remove(st)
+                    if not blk:
+                        blk.append(ast.Pass())
+                    sub = _Subst(env)
+                    f.body = [sub.visit(b_) for b_ in f.body]
+                    notes.append(f'{f.name}: unpacking of the '
+                                 f'{ALL_RECORDS[names]} record "{v}" '
+                                 'written as field reads')
+    ast.fix_missing_locations(tree)
+    return notes
 
 
 def new_records(sources):
@@ -2691,6 +2881,31 @@ def new_records(sources):
                     fs = a1.value.replace(',', ' ').split()
                 if fs and st.targets[0].id not in PINNED_RECORDS:
                     recs[st.targets[0].id] = fs
+    # every record type of the package with its fields (pinned ones too):
+    # used to read ``a, b = rec`` with the field names as targets
+    ALL_RECORDS.clear()
+    for t in trees:
+        for st in t.body:
+            if isinstance(st, ast.Assign) and len(
+                    st.targets) == 1 and isinstance(
+                        st.targets[0], ast.Name) and isinstance(
+                            st.value, ast.Call) and ast.unparse(
+                                st.value.func) in ('collections.namedtuple',
+                                                   'namedtuple') and len(
+                                                       st.value.args) == 2:
+                a1 = st.value.args[1]
+                if isinstance(a1, (ast.List, ast.Tuple)) and all(
+                        isinstance(e, ast.Constant) for e in a1.elts):
+                    ALL_RECORDS.setdefault(
+                        tuple(e.value for e in a1.elts), st.targets[0].id)
+            elif isinstance(st, ast.ClassDef) and len(st.bases) == 1 and \
+                    ast.unparse(st.bases[0]) in ('typing.NamedTuple',
+                                                 'NamedTuple'):
+                fs = tuple(b.target.id for b in st.body
+                           if isinstance(b, ast.AnnAssign)
+                           and isinstance(b.target, ast.Name))
+                if fs:
+                    ALL_RECORDS.setdefault(fs, st.name)
     if not recs:
         return {}
     for t in trees:
@@ -2789,14 +3004,173 @@ def flatten_records(tree, records):
     return notes
 
 
+def inline_contextmanagers(tree, modname):
+    """``with H(args) as v: BODY`` where H is a module-level generator
+    decorated with ``contextlib.contextmanager`` that did not exist on the
+    pinned tree and yields exactly once (no return, not in a loop): the
+    statements of H with ``yield X`` replaced by ``v = X; BODY`` - the
+    definition of what the decorator does for a single-yield generator
+    (an exception of BODY is raised at the yield)."""
+    notes = []
+    known = known_private().get(modname, set())
+    cms = {}
+    for st in tree.body:
+        if isinstance(st, ast.FunctionDef) and _is_private(st.name) and \
+                st.name not in known and any(
+                    ast.unparse(d) in ('contextlib.contextmanager',
+                                       'contextmanager')
+                    for d in st.decorator_list) and len(
+                        st.decorator_list) == 1:
+            ys = [x for x in ast.walk(st) if isinstance(x, (ast.Yield,
+                                                            ast.YieldFrom))]
+            rets = [x for x in ast.walk(st) if isinstance(x, ast.Return)]
+            loops = [x for x in ast.walk(st)
+                     if isinstance(x, (ast.For, ast.While))
+                     and any(y in list(ast.walk(x)) for y in ys)]
+            inner = [x for x in ast.walk(st) if isinstance(
+                x, (ast.FunctionDef, ast.Lambda)) and x is not st]
+            a = st.args
+            if len(ys) == 1 and isinstance(ys[0], ast.Yield) and not rets \
+                    and not loops and not inner and not (
+                        a.vararg or a.kwarg or a.kwonlyargs or a.defaults):
+                cms[st.name] = st
+    if not cms:
+        return notes
+    counter = [0]
+
+    def expand(w, caller):
+        it = w.items[0]
+        c = it.context_expr
+        h = cms[c.func.id]
+        ps = [x.arg for x in h.args.posonlyargs + h.args.args]
+        if len(c.args) != len(ps) or c.keywords:
+            return None
+        counter[0] += 1
+        suffix = f'__cm{counter[0]}'
+        caller_names = {x.id for x in ast.walk(caller)
+                        if isinstance(x, ast.Name)} | {
+                            a_.arg for a_ in caller.args.args}
+        body = [clone(b) for b in _doc_free(h.body)]
+        assigned = _assigned_names(body)
+        for b in body:
+            for x in ast.walk(b):
+                if isinstance(x, ast.withitem) and isinstance(
+                        x.optional_vars, ast.Name):
+                    assigned.add(x.optional_vars.id)
+        target = it.optional_vars
+        keep = {target.id} if isinstance(target, ast.Name) else set()
+        env = {}
+        pre = []
+        for pn, a_ in zip(ps, c.args):
+            if isinstance(a_, (ast.Name, ast.Constant)) and \
+                    pn not in assigned:
+                env[pn] = a_
+            else:
+                pre.append(ast.Assign(
+                    targets=[ast.Name(id=pn + suffix, ctx=ast.Store())],
+                    value=a_))
+                env[pn] = pn + suffix
+        for n_ in assigned:
+            if n_ in caller_names and n_ not in keep and n_ not in ps:
+                env[n_] = n_ + suffix
+        sub = _Subst(env)
+        body = [sub.visit(b) for b in body]
+        # with-targets are not Name loads/stores of _Subst's string rename
+        done = [False]
+
+        def repl(stmts):
+            out = []
+            for st_ in stmts:
+                if isinstance(st_, ast.Expr) and isinstance(
+                        st_.value, ast.Yield):
+                    done[0] = True
+                    yv = st_.value.value
+                    if target is not None and yv is not None and not (
+                            isinstance(target, ast.Name) and isinstance(
+                                yv, ast.Name) and yv.id == target.id):
+                        out.append(ast.Assign(targets=[target], value=yv))
+                    elif target is not None and yv is None:
+                        out.append(ast.Assign(
+                            targets=[target],
+                            value=ast.Constant(value=None)))
+                    out.extend(w.body)
+                    continue
+                for fld in ('body', 'orelse', 'finalbody'):
+                    b_ = getattr(st_, fld, None)
+                    if isinstance(b_, list) and b_ and isinstance(
+                            b_[0], ast.stmt):
+                        setattr(st_, fld, repl(b_))
+                for hd in getattr(st_, 'handlers', []) or []:
+                    hd.body = repl(hd.body)
+                out.append(st_)
+            return out
+
+        new = pre + repl(body)
+        if not done[0]:
+            return None
+        for x in new:
+            for y in ast.walk(x):
+                if not hasattr(y, 'lineno'):
+                    ast.copy_location(y, w)
+        return new
+
+    for f in [x for x in ast.walk(tree) if isinstance(x, ast.FunctionDef)
+              and x.name not in cms]:
+        changed = True
+        while changed:
+            changed = False
+            for x in ast.walk(f):
+                for fld in ('body', 'orelse', 'finalbody'):
+                    blk = getattr(x, fld, None)
+                    if not (isinstance(blk, list) and blk and isinstance(
+                            blk[0], ast.stmt)):
+                        continue
+                    for i, st in enumerate(blk):
+                        if isinstance(st, ast.With) and len(
+                                st.items) == 1 and isinstance(
+                                    st.items[0].context_expr,
+                                    ast.Call) and isinstance(
+                                        st.items[0].context_expr.func,
+                                        ast.Name) and st.items[
+                                            0].context_expr.func.id in cms:
+                            new = expand(st, f)
+                            if new is not None:
+                                blk[i:i + 1] = new
+                                notes.append(
+                                    f'{f.name}: inlined context manager '
+                                    f'{st.items[0].context_expr.func.id}')
+                                changed = True
+                                break
+                    if changed:
+                        break
+                if changed:
+                    break
+    # drop managers that are not referenced any more
+    for nme, h in cms.items():
+        refs = [x for x in ast.walk(tree) if isinstance(x, ast.Name)
+                and x.id == nme]
+        if not refs and h in tree.body:
+            tree.body.remove(h)
+    ast.fix_missing_locations(tree)
+    return notes
+
+
 def inline_new_helpers(tree, modname, records=None):
     notes0 = []
+    try:
+        notes0 += inline_contextmanagers(tree, modname)
+    except RecursionError:
+        pass
     try:
         notes0 += lower_modern_syntax(tree)
     except RecursionError:
         pass
     try:
         notes0 += flatten_records(tree, records or {})
+    except RecursionError:
+        pass
+    try:
+        notes0 += unpack_records(tree)
     except RecursionError:
         pass
     try:
